@@ -172,6 +172,118 @@ TEXT_PATHS = ("str",) + REL_PATHS
 OBJ_KINDS = ("section", "detached_section", "property", "none", "str", "dict", "list_of_docs")
 
 
+# ---- strengthening round 6 ----------------------------------------------------------------------------------
+# how two objects of one document come to carry one id. An id is an RFC 4122 UUID: the library hands every id
+# that comes in through its public doors (constructor argument `oid`, `new_id`, the readers) to uuid.UUID and
+# keeps the canonical text, so the same UUID written another way is the same id. A way is the text
+# "id:<how>:<spelling>:<pair>":
+#   how      - new_id (an object that has an id of its own is given another object's), ctor (a new object is made
+#              with `oid=`), docclone (a Section of a keep_id clone of the whole document is taken over),
+#              clone_partial (keep_id clone whose top object then got a new id: the children still share theirs),
+#              and the neighbours that leave a faultless document: new_id_back (the edit is taken back with
+#              new_id()), clone_fresh (keep_id clone, then a new id for every object of it);
+#   spelling - how the other object's id is written (ID_SPELL_SAME: texts uuid.UUID reads as the same UUID;
+#              ID_SPELL_OTHER: texts and objects that are no spelling of it - the library refuses them or makes an id
+#              of its own, the document stays faultless and must be written);
+#   pair     - who receives whose id: d = the Document, s = a Section, p = a Property, a = the receiver's parent
+ID_SPELL_SAME = ("canon", "upper", "mixed", "urn", "urn_upper_hex", "braces", "braces_urn", "brace_open",
+                 "nohyphen", "nohyphen_upper", "hyphens_odd", "hyphen_moved", "fullwidth", "strsub")
+ID_SPELL_OTHER = ("URN", "padded", "newline", "short", "long", "nonhex", "empty", "word", "other_uuid", "nil_uuid",
+                  "uuid_obj", "bytes", "int", "list", "none", "true")
+ID_SPELL_OBJECTS = ("strsub", "uuid_obj", "bytes", "int", "list", "none", "true")
+ID_PAIRS = ("ss", "pp", "sp", "ps", "sd", "ds", "dp", "sa", "pa")
+ID_HOWS_OTHER = ("docclone", "clone_partial", "new_id_back", "clone_fresh")
+# the document is read from a text (XML / JSON / YAML) in which the id of one object was overwritten with another
+# object's id in one of the spellings: doc spec {"via": fmt, "text_id": {"spell", "pair", "pick"}}
+
+
+# ways a Section comes to have no type: "ty:<how>:<value>" - through the setter or the constructor argument, the
+# value None / "" (missing: a way of being invalid when the look at the attributes confirms it), other values that
+# are false (0, 0.0, [], (), False: the library's call, the oracle demands nothing of its own) and texts that only
+# look like nothing (" ", "0", "None", "n.s" - the Section has a type, the document is written)
+TYPE_VALUES = ("none", "empty", "zero", "zero_float", "emptylist", "emptytuple", "false", "ws", "zero_text",
+               "none_text", "nbsp")
+TYPE_MISSING = ("none", "empty")
+
+
+def is_type_way(kind):
+    return isinstance(kind, str) and kind.startswith("ty:")
+
+
+def type_value(tag):
+    return {"none": None, "empty": "", "zero": 0, "zero_float": 0.0, "emptylist": [], "emptytuple": (), "false": False,
+            "ws": " ", "zero_text": "0", "none_text": "None", "nbsp": u"\u00a0"}[tag]
+
+
+# what new_id was handed and what the object's id was before / after (filled by apply_id_way, read by run_step)
+ID_EDITS = []
+
+
+def is_id_way(kind):
+    return isinstance(kind, str) and kind.startswith("id:")
+
+
+def id_way(how, spell="-", pair="-"):
+    return "id:%s:%s:%s" % (how, spell, pair)
+
+
+def respell(oid, spell):
+    """The id `oid` (canonical text) written / handed over in another way."""
+    import uuid
+    hexs = oid.replace("-", "")
+    if spell == "fullwidth":              # int() reads every Unicode decimal digit
+        return oid.translate(dict((ord(c), 0xFF10 + int(c)) for c in "0123456789"))
+    return {
+        "canon": lambda: oid, "upper": lambda: oid.upper(), "mixed": lambda: oid[:18].upper() + oid[18:],
+        "urn": lambda: "urn:uuid:" + oid, "urn_upper_hex": lambda: "urn:uuid:" + oid.upper(),
+        "braces": lambda: "{%s}" % oid, "braces_urn": lambda: "{urn:uuid:%s}" % oid, "brace_open": lambda: "{" + oid,
+        "nohyphen": lambda: hexs, "nohyphen_upper": lambda: hexs.upper(),
+        "hyphens_odd": lambda: "-".join(hexs[i:i + 4] for i in range(0, 32, 4)),
+        "hyphen_moved": lambda: hexs[:16] + "-" + hexs[16:], "strsub": lambda: StrSub(oid.upper()),
+        "URN": lambda: "URN:UUID:" + oid, "padded": lambda: " %s " % oid, "newline": lambda: oid + "\n",
+        "short": lambda: oid[:-1], "long": lambda: oid + "0",
+        "nonhex": lambda: "g" + oid[1:], "empty": lambda: "", "word": lambda: "not-a-uuid",
+        "other_uuid": lambda: ("0" if oid[0] != "0" else "1") + oid[1:],
+        "nil_uuid": lambda: "00000000-0000-0000-0000-000000000000",
+        "uuid_obj": lambda: uuid.UUID(oid), "bytes": lambda: oid.encode("ascii"), "int": lambda: uuid.UUID(oid).int,
+        "list": lambda: [oid], "none": lambda: None, "true": lambda: True,
+    }[spell]()
+
+
+def id_key(val):
+    """What an id stands for: the UUID when it is one (whatever the spelling), else the thing itself."""
+    import uuid
+    if isinstance(val, uuid.UUID):
+        return ("uuid", val.int)
+    if isinstance(val, str):
+        try:
+            return ("uuid", uuid.UUID(val).int)
+        except Exception:
+            return ("text", val)
+    return ("other", val)
+
+
+def id_pair(doc, secs, pair, pick):
+    """(receiver, donor) of an id for the pair code; None when the document has no such two objects."""
+    props = [prop for sec in secs for prop in sec.properties]
+
+    def of(code, index, avoid=None):
+        pool = {"d": [doc], "s": list(secs), "p": props}[code]
+        pool = [obj for obj in pool if obj is not avoid]
+        return pool[index % len(pool)] if pool else None
+
+    receiver = of(pair[0], pick)
+    if receiver is None:
+        return None
+    if pair[1] == "a":
+        donor = getattr(receiver, "parent", None)
+    else:
+        donor = of(pair[1], pick + 1, avoid=receiver)
+    if donor is None or donor is receiver:
+        return None
+    return receiver, donor
+
+
 class Obj(object):
     """An attribute object json cannot encode."""
 
@@ -260,7 +372,14 @@ def build_doc(spec):
         try:
             from odml.tools.odmlparser import ODMLReader, ODMLWriter
             text = ODMLWriter(spec["via"]).to_string(doc)
-            loaded = ODMLReader(spec["via"], show_warnings=False).from_string(text)
+            tid = spec.get("text_id")
+            if tid:
+                # (round 6) the text was written elsewhere: one object's id is another object's, in some spelling
+                both = id_pair(doc, secs, tid.get("pair", "ss"), tid.get("pick", 0))
+                spelled = respell(both[1].id, tid.get("spell", "canon")) if both else None
+                if isinstance(spelled, str) and both[0].id in text:
+                    text = text.replace(both[0].id, str(spelled))
+            loaded =ODMLReader(spec["via"], show_warnings=False).from_string(text)
             kept = [s for s in loaded.itersections(recursive=True)
                     if not any(getattr(a, "link", None) for a in [s] + _ancestors(s))]
             if kept:
@@ -453,11 +572,31 @@ def independently_invalid(doc):
                         found.append("Property without name")
                 walk(sec, depth + 1)
         walk(doc, 0)
-        if twice(ids):
+        # (round 6) an id is a UUID: the same UUID in another spelling is the same id (for the canonical texts the
+        # library keeps this is plain equality of the texts)
+        if twice([id_key(i) for i in ids]):
             found.append("two objects of one id")
         return found
     except Exception:
         return None
+
+
+def ids_in_rule_order(doc):
+    """The id texts of all objects, the Document's first, then depth first: of every Section the ids of its
+    Properties, its own, those of its sub-Sections. None when an id is not an ASCII text (outside the model)."""
+    ids = [doc.id]
+
+    def walk(holder, depth):
+        if depth > 60:
+            raise RuntimeError("too deep")
+        for sec in holder.sections:
+            ids.extend(prop.id for prop in sec.properties)
+            ids.append(sec.id)
+            walk(sec, depth + 1)
+    walk(doc, 0)
+    if not all(isinstance(i, str) and all(ord(ch) < 128 for ch in i) for i in ids):
+        return None
+    return [str(i) for i in ids]
 
 
 def register_rules(kinds, made):
@@ -564,12 +703,110 @@ def apply_payload(doc, secs, payload, undo):
         setattr(holder, attr, value)
 
 
+def apply_id_way(doc, secs, inv, pick_index, undo, skipped, suffix=""):
+    """(round 6) One of the histories "id:<how>:<spelling>:<pair>" through the public API. Whether two objects
+    share an id afterwards is not assumed: the oracle looks at the ids itself (independently_invalid). An edit
+    the library refuses is part of the history, not a reason to leave the case out."""
+    import odml
+    parts = inv.split(":")
+    how, spell, pair = parts[1], parts[2], parts[3]
+    pick = secs[pick_index % len(secs)]
+
+    def all_objects(sec):
+        out = [sec] + list(sec.properties)
+        for sub in sec.sections:
+            out += all_objects(sub)
+        return out
+
+    if how in ("new_id", "new_id_back", "ctor"):
+        both = id_pair(doc, secs, pair, pick_index)
+        if both is None:
+            skipped.append(inv)
+            return
+        receiver, donor = both
+        arg = respell(donor.id, spell)
+        if how == "ctor":
+            # a new object next to the receiver, made with the donor's id
+            made, home = None, None
+            try:
+                if pair[0] == "p":
+                    home = receiver.parent
+                    made = odml.Property(name="made_p" + suffix, values=[1], oid=arg, parent=home)
+                else:
+                    home = receiver.parent if pair[0] == "s" else doc
+                    made = odml.Section(name="made_s" + suffix, type="mt", oid=arg, parent=home)
+            except Exception:             # the constructor refuses the argument: nothing was made
+                made = None
+            if made is not None and home is not None:
+                undo.append(lambda: home.remove(made))
+            return
+        old = receiver.id
+
+        def back():
+            try:
+                receiver.new_id(old)
+            except Exception:
+                receiver._id = old
+        undo.append(back)
+        try:
+            receiver.new_id(arg)
+        except Exception:                 # refused: the object keeps the id it had
+            pass
+        if isinstance(arg, str) and isinstance(receiver.id, str):
+            ID_EDITS.append({"arg": str(arg), "before": old, "after": receiver.id})
+        if how == "new_id_back":
+            receiver.new_id()
+    elif how == "docclone":
+        try:
+            twin = doc.clone(keep_id=True)
+            tops = [sec for sec in twin.sections if not getattr(sec, "link", None)
+                    and not getattr(sec, "include", None)]
+            taken = tops[pick_index % len(tops)]
+            twin.remove(taken)
+            taken.name = "twin_of_" + str(taken.name) + suffix
+            doc.append(taken)
+            undo.append(lambda: doc.remove(taken))
+        except Exception:
+            skipped.append(inv)
+    elif how in ("clone_partial", "clone_fresh"):
+        clone = pick.clone(keep_id=True)
+        clone.name = "clone_of_" + str(pick.name) + suffix
+        clone.new_id()
+        if how == "clone_fresh":
+            for obj in all_objects(clone)[1:]:
+                obj.new_id()
+        holder = pick.parent
+        holder.append(clone)
+        undo.append(lambda: holder.remove(clone))
+    else:
+        skipped.append(inv)
+
+
 def apply_invalid(doc, secs, inv, pick_index, undo, skipped, suffix=""):
     """One of the ways of being invalid the property names, applied to the Section `pick_index` chooses."""
     import odml
     pick = secs[pick_index % len(secs)] if secs else None
     if inv and pick is None:
         skipped.append(inv)
+    elif is_id_way(inv):
+        apply_id_way(doc, secs, inv, pick_index, undo, skipped, suffix)
+    elif is_type_way(inv):
+        # (round 6) the door the type came in through and what exactly it is
+        how, val = inv.split(":")[1:3]
+        if how == "ctor":
+            holder = pick.parent
+            try:
+                made = odml.Section(name="made_t" + suffix, type=type_value(val), parent=holder)
+                undo.append(lambda: holder.remove(made))
+            except Exception:             # the constructor refuses the value: nothing was made
+                pass
+        else:
+            old_type = pick.type
+            undo.append(lambda: setattr(pick, "type", old_type))
+            try:
+                pick.type = type_value(val)
+            except Exception:             # the setter refuses the value: the Section keeps its type
+                pass
     elif inv in ("notype", "emptytype"):
         old_type = pick.type
         undo.append(lambda: setattr(pick, "type", old_type))
@@ -773,7 +1010,9 @@ class C07(fw.Check):
         "legacy_harm_exact", "save_path_spec", "save_path_examples", "saveW_refines",
         "saveW_invalid_never_written", "saveW_harm_exact", "saveW_frame", "write_failure_truncates",
         "nonblocking_rules_rank_warning", "warning_rule_issues_written", "blocking_rule_issue_refused",
-        "error_anywhere_never_written", "failed_save_keeps_completed_name", "resave_failure_keeps_first_save"]]
+        "error_anywhere_never_written", "failed_save_keeps_completed_name", "resave_failure_keeps_first_save",
+        "duplicate_id_has_issue", "distinct_ids_no_issue", "stored_text_of_spelling",
+        "respelled_duplicate_id_never_written", "unreadable_id_refused"]]
     trusted_base = [
         "Lean 4.33.0 kernel; axioms propext, Classical.choice, Quot.sound only (audited per theorem)",
         "hand-written model lean/OdmlModel/Model/FS.lean, tied to the repository by this correspondence run",
@@ -942,7 +1181,7 @@ class C07(fw.Check):
                 st["backend"] = st["backend"].upper()
             cases.append({"stream": "locale", "steps": steps})
         return cases + self.generate_round2(tier, rng, lmodes) + self.generate_round4(tier, rng, lmodes) \
-            + self.generate_round5(tier, rng)
+            + self.generate_round5(tier, rng) + self.generate_round6(tier, rng)
 
     def generate_round2(self, tier, rng, lmodes):
         """Streams added after seeded round 2 (see design.d/C07.md)."""
@@ -1448,6 +1687,161 @@ class C07(fw.Check):
             cases.append(self.settle(case))
         return cases
 
+    def generate_round6(self, tier, rng):
+        """Streams added after seeded round 6 (see design.d/C07.md): the history through which two objects of a
+        document come to carry one id - which public door the id came in through, how it was written, whose id
+        it is - and the neighbouring histories that leave a faultless document."""
+        cases = []
+        quick = tier == "quick"
+        base = {"doc": {"secs": 2, "props": 2, "nested": True}, "pick": 0, "warn": False, "filter": "default",
+                "name": "f.out", "invalid": None, "fault": None, "custom_template": None}
+        all_modes = modes()
+        validating = [m for m in all_modes if m[0] in ("fileio", "odmlwriter")]
+        core = [m for m in validating if m[2] in (None, "turtle")]                # 2 entries x 5 serialisers
+        spells = ID_SPELL_SAME + ID_SPELL_OTHER
+        vias = ("XML", "JSON", "YAML")
+        n = 0
+
+        def docspec(k):
+            return {"secs": 2 + k % 2, "props": 1 + (k // 2) % 2, "nested": k % 3 != 1}
+
+        # (a) every spelling x {new_id, constructor argument, text that is read} x every serialiser; who receives
+        #     whose id, the entry point and the target state rotate (every combination in the thorough tier)
+        for i, spell in enumerate(spells):
+            for j, how in enumerate(("new_id", "ctor", "text")):
+                if how == "text" and spell in ID_SPELL_OBJECTS:
+                    continue
+                for k in range(5):
+                    for e in range(1 if quick else 2):
+                        n += 1
+                        mode = core[(k + 5 * ((i + j + k + e) % 2)) % len(core)]
+                        pair = ID_PAIRS[(n + i) % len(ID_PAIRS)]
+                        doc = docspec(n)
+                        extra = {"invalid": id_way(how, spell, pair)}
+                        if how == "text":
+                            doc = dict(doc, via=vias[(i + k) % 3],
+                                       text_id={"spell": spell, "pair": pair.replace("a", "s"), "pick": n})
+                            extra = {}
+                        cases.append(self.one(rng, mode, **dict(base, doc=doc, pick=n,
+                                                                target=("old", "absent")[n % 2], **extra)))
+        # (b) every pair of objects x the spellings that name the same UUID x both doors
+        for i, pair in enumerate(ID_PAIRS):
+            for j, spell in enumerate(ID_SPELL_SAME):
+                if quick and (i + j) % 2:
+                    continue
+                for k, how in enumerate(("new_id", "ctor")):
+                    n += 1
+                    mode = core[(i + 3 * j + 5 * k) % len(core)]
+                    cases.append(self.one(rng, mode, **dict(base, doc=docspec(i + j), pick=i + j + k,
+                                                            invalid=id_way(how, spell, pair),
+                                                            target=("old", "absent")[(i + j + k) % 2])))
+        # (c) every validating mode (all RDF sub-formats) x spellings
+        for i, mode in enumerate(validating):
+            for j, spell in enumerate(spells if not quick else
+                                      [ID_SPELL_SAME[(i + t) % len(ID_SPELL_SAME)] for t in range(2)]):
+                n += 1
+                cases.append(self.one(rng, mode, **dict(base, doc=docspec(n), pick=n,
+                                                        invalid=id_way(("new_id", "ctor")[(i + j) % 2], spell,
+                                                                       ID_PAIRS[n % len(ID_PAIRS)]),
+                                                        target=("old", "absent")[n % 2])))
+        # (d) the other histories: a Section of a keep_id clone of the document, a keep_id clone that got a new
+        #     id at the top only / for every object, an edit that was taken back
+        for i, how in enumerate(ID_HOWS_OTHER):
+            for j, mode in enumerate(core if quick else validating):
+                n += 1
+                doc = docspec(i + j)
+                if (i + j) % 4 == 3:
+                    doc["rich"] = ("plain", "card")[j % 2]
+                cases.append(self.one(rng, mode, **dict(base, doc=doc, pick=i + j,
+                                                        invalid=id_way(how, ID_SPELL_SAME[(i + j) % len(ID_SPELL_SAME)],
+                                                                       ID_PAIRS[(i + j) % len(ID_PAIRS)]),
+                                                        target=("old", "absent")[(i + j) % 2])))
+        # (e) together with the other dimensions: behind many warnings, deep in the tree, next to another way of
+        #     being invalid, with issues of rank warning, under the warnings filters, derived / own / linked
+        #     targets, relative paths, documents that were read from a text before the edit, rich documents
+        same_ways = [id_way(how, spell, pair) for how in ("new_id", "ctor") for spell in ID_SPELL_SAME
+                     for pair in ID_PAIRS]
+        for i in range(120 if quick else 4000):
+            mode = core[i % len(core)] if i % 3 else rng.choice(validating)
+            way = rng.choice(same_ways) if i % 5 else id_way(rng.choice(("new_id", "ctor")),
+                                                             rng.choice(ID_SPELL_OTHER), rng.choice(ID_PAIRS))
+            doc = docspec(i)
+            extra = {}
+            style = i % 8
+            if style == 0:
+                doc["lead"] = self.bulk(rng, join=False)
+            elif style == 1:
+                doc["depth"] = rng.choice(DEPTHS)
+            elif style == 2:
+                extra["more_invalid"] = [[rng.choice(INVALID_KINDS + (rng.choice(same_ways),)), rng.randrange(6)]]
+            elif style == 3:
+                extra["warns"] = [self.warn(rng) for _ in range(rng.randrange(1, 3))]
+                extra["filter"] = rng.choice(FILTERS)
+            elif style == 4:
+                extra["target"] = rng.choice(DERIVED_TARGETS + ("old_self", "old_long", "link_old", "link_dangling"))
+                extra["name"] = rng.choice(["f", "f.out", "d.1/f"])
+            elif style == 5:
+                extra["path_kind"] = rng.choice(REL_PATHS + ("pathlib",))
+            elif style == 6:
+                doc["via"] = rng.choice(vias)
+                extra["pre"] = rng.choice([None, "validate"])
+            else:
+                doc["rich"] = rng.choice(["plain", "card"])
+            if "invalid" in extra:
+                extra.pop("invalid")
+            case = self.one(rng, mode, **dict(base, doc=doc, pick=rng.randrange(8), invalid=way,
+                                              target=extra.pop("target", ("old", "absent")[i % 2]), **extra))
+            if style == 2 and i % 16 == 2:
+                # the id edit is the second thing that happened to the document
+                case["invalid"], case["more_invalid"] = case["more_invalid"][0][0], [[way, case["pick"] + 1]]
+            cases.append(case)
+        # (e2) how a Section comes to have no type: setter / constructor argument x what the type is then
+        for i, val in enumerate(TYPE_VALUES):
+            for j, how in enumerate(("set", "ctor")):
+                for k, mode in enumerate(core if quick else validating):
+                    if quick and (i + j + k) % 2:
+                        continue
+                    n += 1
+                    extra = {}
+                    if n % 5 == 0:
+                        extra["warns"] = [self.warn(rng)]
+                    if n % 7 == 0:
+                        extra["more_invalid"] = [[rng.choice(same_ways), n]]
+                    cases.append(self.one(rng, mode, **dict(base, doc=docspec(n), pick=n,
+                                                            invalid="ty:%s:%s" % (how, val),
+                                                            target=("old", "absent")[n % 2], **extra)))
+        # (f) the entry points that do not validate (the frame and the one-path clauses alone apply)
+        for i, mode in enumerate([("xmlwriter", "XML", None), ("rdfwriter", "RDF", "turtle"),
+                                  ("rdfwriter", "RDF", "xml")]):
+            for j in range(3):
+                cases.append(self.one(rng, mode, **dict(base, doc=docspec(i + j), pick=i + j,
+                                                        invalid=same_ways[(i * 37 + j * 11) % len(same_ways)],
+                                                        target=("old", "absent")[(i + j) % 2])))
+        # (g) one document object and one writer object for several saves: a good save, the id edit (refused),
+        #     the edit taken back (written), another spelling ...; and histories of fresh documents
+        reusable = [m for m in all_modes if m[0] in ("fileio", "odmlwriter") and m[2] in (None, "turtle", "nt")]
+        for i in range(50 if quick else 1200):
+            mode = reusable[(i * 3) % len(reusable)]
+            doc = docspec(i)
+            if i % 7 == 0:
+                doc["via"] = vias[i % 3]
+            steps = []
+            for k in range(rng.randrange(2, 5)):
+                st = self.one(rng, mode, **dict(base, doc=doc, name=rng.choice(["f.out", "g.out", "f"]),
+                                                pick=rng.randrange(8)))
+                st["target"] = rng.choice(["keep", "keep", "keep", "missing_dir"])
+                st["backend"] = mode[1]
+                if (i + k) % 2:
+                    st["invalid"] = rng.choice(same_ways) if rng.random() < 0.8 else id_way(
+                        rng.choice(("new_id", "ctor") + ID_HOWS_OTHER), rng.choice(spells), rng.choice(ID_PAIRS))
+                elif rng.random() < 0.3:
+                    st["warns"] = [self.warn(rng)]
+                elif rng.random() < 0.3:
+                    st["invalid"] = "ty:%s:%s" % (rng.choice(("set", "ctor")), rng.choice(TYPE_VALUES))
+                steps.append(self.settle(st))
+            cases.append({"stream": "reuse" if i % 3 else "history", "steps": steps})
+        return cases
+
     # -- implementation ------------------------------------------------------
     def impl_locale(self, case):
         code = ("import sys, json; sys.path.insert(0, %r); import c07; "
@@ -1588,7 +1982,9 @@ class C07(fw.Check):
             except Exception:
                 pass
         undo = []
+        del ID_EDITS[:]
         skipped = inject(doc, secs, case, undo)
+        id_edits = list(ID_EDITS)
         if case.get("repository") and secs:
             # (round 4) the first Section names a terminology: a file that is not there / one whose Section of
             # this type lacks the Property / one that has it (looked at by the rules shipped "on demand" only)
@@ -1609,7 +2005,10 @@ class C07(fw.Check):
                 register_rules(case.get("register"), made)
             except Exception:             # a rule the library does not have (any more): step left out
                 return None
-            return self.save_and_observe(case, root, path, doc, skipped, links, fresh, ctx)
+            obs = self.save_and_observe(case, root, path, doc, skipped, links, fresh, ctx)
+            if isinstance(obs, dict):
+                obs["id_edits"] = id_edits
+            return obs
         finally:
             try:
                 unregister_rules(made)
@@ -1717,6 +2116,14 @@ class C07(fw.Check):
                 obs["validate"] = {"raise": fw.exc_name(exc)}
             # (round 4) the ways of being invalid the property names, looked for without odml.validation
             obs["indep_invalid"] = independently_invalid(doc)
+            # (round 6) for the model's id rule: the id texts in the order the rule meets the objects (the
+            # Document's first; of a Section its Properties', its own, then its sub-Sections') and the ids of the
+            # objects the issues of the rule are about
+            try:
+                obs["ids"] = ids_in_rule_order(doc)
+                obs["id_issues"] = [e.obj.id for e in issues if self.rule_of(e) == "document_unique_ids"]
+            except Exception:
+                obs["ids"] = None
             # RDFWriter gets the format as it is; ODMLWriter takes one that is not a text as "not given" (-> "xml")
             eff = fmt if (entry == "rdfwriter" or isinstance(fmt, str)) else "xml"
             try:
@@ -1909,7 +2316,36 @@ class C07(fw.Check):
     def model_requests(self, case, obs):
         if case["stream"] in STEP_STREAMS:
             return [self.step_request(st, o) for st, o in self.step_pairs(case, obs) if self.modelled(st, o)]
-        return [self.step_request(case, obs)] if self.modelled(case, obs) else []
+        if not self.modelled(case, obs):
+            return []
+        reqs = [self.step_request(case, obs)]
+        if self.id_modelled(case, obs):
+            # (round 6) the model's id rule on the ids of this document, and what new_id stores for each text
+            reqs.append({"p": "C07", "op": "idrule", "ids": obs["ids"],
+                         "edits": [e["arg"] for e in self.ascii_edits(obs)]})
+        return reqs
+
+    @staticmethod
+    def ascii_edits(obs):
+        return [e for e in obs.get("id_edits") or [] if all(ord(ch) < 128 for ch in e["arg"])]
+
+    @staticmethod
+    def id_modelled(case, obs):
+        if not (is_id_way(case.get("invalid")) or case["doc"].get("text_id")
+                or any(is_id_way(m[0]) for m in case.get("more_invalid") or [])):
+            return False
+        return obs.get("ids") is not None and "ok" in obs.get("validate", {})
+
+    def compare_ids(self, case, obs, ans):
+        out = []
+        if sorted(ans["issues"]) != sorted(obs.get("id_issues") or []) or len(ans["issues"]) != len(obs["id_issues"]):
+            out.append("id rule: model reports %s, implementation %s" % (ans["issues"], obs.get("id_issues")))
+        for edit, stored in zip(self.ascii_edits(obs), ans["stored"]):
+            want = stored if stored is not None else edit["before"]
+            if is_id_way(case.get("invalid")) and case["invalid"].split(":")[1] == "new_id" \
+                    and not case.get("more_invalid") and edit["after"] != want:
+                out.append("new_id(%r): model stores %r, implementation %r" % (edit["arg"], want, edit["after"]))
+        return out
 
     @staticmethod
     def modelled(case, obs):
@@ -1970,7 +2406,12 @@ class C07(fw.Check):
             for i, ((st, o), ans) in enumerate(zip(pairs, answers)):
                 out += ["step %d: %s" % (i, d) for d in self.compare_step(st, o, ans)]
             return out
-        return self.compare_step(case, obs, answers[0]) if answers else []
+        if not answers:
+            return []
+        out = self.compare_step(case, obs, answers[0])
+        if len(answers) > 1:
+            out += self.compare_ids(case, obs, answers[1])
+        return out
 
     # -- oracle --------------------------------------------------------------
     def oracle_step(self, case, obs):
@@ -1992,16 +2433,25 @@ class C07(fw.Check):
         # (round 4) a rule of rank error registered by the user makes every document invalid
         custom_error = any(k in REGISTER_ERRORS for k in case.get("register") or [])
         # (round 5) several ways of being invalid at once
+        # (round 6) two objects of one id, seen by reading the ids (the same UUID in another spelling is the same id:
+        # the library itself keeps ids as canonical UUID texts and its readers canonicalise, so a file written with
+        # the two spellings loads as a document with a duplicate id). A history of id edits counts as a way of
+        # being invalid exactly when it left such a pair behind.
+        dup_seen = "two objects of one id" in (obs.get("indep_invalid") or [])
         injected = [k for k in [case.get("invalid")] + [m[0] for m in case.get("more_invalid") or []]
-                    if k in INVALID_KINDS and k not in obs["skipped"]]
-        invalid = ((bool(injected) or custom_error) and "raise" not in obs["validate"]) \
+                    if (k in INVALID_KINDS or (is_id_way(k) and dup_seen)
+                        or (is_type_way(k) and k.split(":")[2] in TYPE_MISSING
+                            and "Section without type or name" in (obs.get("indep_invalid") or [])))
+                    and k not in obs["skipped"]]
+        invalid = ((bool(injected) or custom_error or dup_seen) and "raise" not in obs["validate"]) \
             or (ranks is not None and "error" in ranks)
         failed = obs["outcome"] != "ok"
         # 1. an invalid document is never written: ParserException for every format
         if validates and supported and invalid:
             if not failed:
-                out.append("invalid document (%s, issues %s) was saved by %s/%s without an exception"
-                           % (case.get("invalid"), ranks, entry, case["backend"]))
+                out.append("invalid document (%s%s, issues %s) was saved by %s/%s without an exception"
+                           % (case.get("invalid"), ", two objects share an id" if dup_seen else "", ranks, entry,
+                              case["backend"]))
             elif not obs.get("is_parser_exception") and case.get("path_kind", "str") in TEXT_PATHS \
                     and case["filter"] != "error_all":
                 # (odml.save looks at a path that is not a text before it validates; with every warning an
@@ -2095,7 +2545,12 @@ class C07(fw.Check):
             or bool(obs.get("warned"))
         extra = ""
         doc_spec = case["doc"]
-        if doc_spec.get("lead") or doc_spec.get("trail") or doc_spec.get("depth") or case.get("more_invalid"):
+        if is_id_way(case.get("invalid")) or doc_spec.get("text_id") \
+                or any(is_id_way(m[0]) for m in case.get("more_invalid") or []):
+            # (round 6) a history of id edits: did it leave two objects of one id behind
+            extra = ":id-history-" + ("duplicate" if "two objects of one id" in (obs.get("indep_invalid") or [])
+                                      else "clean")
+        elif doc_spec.get("lead") or doc_spec.get("trail") or doc_spec.get("depth") or case.get("more_invalid"):
             at = obs.get("first_error_at")
             extra = ":bulk" if at is None else ":bulk-error-behind-%s" % (
                 "0" if at == 0 else "1-19" if at < 20 else "20-99" if at < 100 else "100+")
